@@ -1050,6 +1050,76 @@ func ruleFD3(c *Ctx) *rule {
 	if n == 0 {
 		r.ok(fname(fw.fn)+" entries-loop no-negative-return", c.bpos(fw.loop.header), "the loop over the entries only returns on a hit")
 	}
+	// the walk as a whole: a negative answer (a freshly made error, not the error of a failed call) is only given where the
+	// walk gives up, i.e. under a test of the searched directory that does not depend on what the directory contains
+	m := 0
+	for _, ret := range returnsOf(fw.fn) {
+		if !dominates(fw.loop.header, ret.Block()) {
+			continue
+		}
+		ev := returnedErr(ret)
+		if ev == nil || isNilConst(ev) {
+			continue
+		}
+		sl := c.newSlicer()
+		sl.depth = 0
+		res := sl.run(ev)
+		wraps := false
+		for v := range res.vals {
+			if ex, ok := v.(*ssa.Extract); ok && isErrorType(ex.Type()) {
+				wraps = true
+			}
+			if call, ok := v.(*ssa.Call); ok && isErrorType(call.Type()) && !definitelyNonNil(call) {
+				wraps = true
+			}
+		}
+		if wraps {
+			continue
+		}
+		m++
+		key := fmt.Sprintf("%s walk negative-return#%d", fname(fw.fn), m)
+		isGiveUpTest := func(cond ssa.Value) bool {
+			gs := c.newSlicer()
+			gs.depth = 0
+			gres := gs.run(cond)
+			return gres.has(fw.w) && !(fw.rd != nil && gres.has(fw.rd)) && !gres.hasCall("os.Stat") && !gres.hasCall("os.Lstat")
+		}
+		giveUp := false
+		for _, g := range fw.fi.necessaryGuards(ret.Block()) {
+			if fw.loop.body[g.e.from] && isGiveUpTest(g.cond) {
+				giveUp = true
+			}
+		}
+		// or: every way into the return comes straight from such a test (`dir == stop || parent == dir` is two tests)
+		if !giveUp {
+			var viaTests func(b *ssa.BasicBlock, depth int) bool
+			viaTests = func(b *ssa.BasicBlock, depth int) bool {
+				if depth > 4 || len(b.Preds) == 0 {
+					return false
+				}
+				for _, p := range b.Preds {
+					if iff, ok := lastInstr(p).(*ssa.If); ok && fw.loop.body[p] {
+						cond, _ := normCond(iff.Cond, true)
+						if isGiveUpTest(cond) {
+							continue
+						}
+						return false
+					}
+					if _, ok := lastInstr(p).(*ssa.Jump); ok && len(p.Instrs) == 1 && viaTests(p, depth+1) {
+						continue
+					}
+					return false
+				}
+				return true
+			}
+			giveUp = viaTests(ret.Block(), 0)
+		}
+		if giveUp {
+			r.ok(key, c.ipos(ret), "given only where the walk gives up (a test of the searched directory itself)")
+		} else {
+			r.bad(key, c.ipos(ret), "the search is abandoned with a 'not found'-style error because of what one directory contains, although a spokfile may exist further up")
+		}
+	}
 	return r
 }
 
